@@ -118,7 +118,8 @@ type NegScript struct {
 	SM           bool     `json:"sm"`
 	Resume       int      `json:"resume_reply"`
 	ResumeAlt    int      `json:"resume_reply_variant,omitempty"`
-	ResumedH     int      `json:"resumed_h,omitempty"` // the h of <resumed/>: what the server says it has handled
+	ResumedH     int      `json:"resumed_h,omitempty"`                             // the h of <resumed/>: what the server says it has handled
+	ProbeOnClose bool     `json:"request_before_answering_stream_close,omitempty"` // when the client closes its stream before a session exists, the server first sends an IQ request
 	Bind         int      `json:"bind_reply"`
 	SessionRep   int      `json:"session_reply"`
 	Enable       int      `json:"enable_reply"`
@@ -222,6 +223,7 @@ type SrvConn struct {
 	HandshakeTLS string // "", "ok", or error text
 	closedByUs   bool
 	PauseReads   bool
+	closer       int
 }
 
 type SentRec struct {
@@ -455,6 +457,22 @@ func (sc *SrvConn) handle(it *Item) {
 		sc.record(it)
 		sc.e.Logf("srv.recv", "%s </stream:stream>", sc.name())
 		if !sc.Dead {
+			if sc.Script.ProbeOnClose && sc.Established == "" {
+				// a peer may still send on a stream the other side has closed
+				sc.Send("<iq xmlns='jabber:client' type='get' id='probe-after-failure' from='" + sc.S.Domain + "'><ping xmlns='urn:xmpp:ping'/></iq>")
+				sc.e.Probe("srv.request_after_client_closed")
+				// keep reading what the client may still write; answer the close a little later
+				sc.closer++
+				sc.e.Go(fmt.Sprintf("%s.closer%d", sc.name(), sc.closer), func() {
+					sc.e.Sleep(2*sc.End.Latency + 2*sc.Pipe.Cli.Latency + 300*time.Millisecond)
+					if !sc.Dead {
+						sc.Send("</stream:stream>")
+						sc.e.Yield("srv.closing")
+						sc.Close()
+					}
+				})
+				return
+			}
 			sc.Send("</stream:stream>")
 			sc.e.Yield("srv.closing")
 			sc.Close()
